@@ -265,6 +265,11 @@ type H1Client struct {
 	// Connect is called to (re)connect; returns nil if refused.
 	Connect func() *sim.Conn
 	Stray   int
+	// "Expect: 100-continue": the body of the current request is held back until the interim response
+	// arrives (or, like real clients, for at most a second)
+	heldBody []byte
+	heldFor  *ReqRec
+	Continues int
 }
 
 func NewH1Client(s *sim.Sim, h *History, name string) *H1Client {
@@ -317,8 +322,32 @@ func (x *H1Client) pump() {
 	r.ConnID = x.Conn.ID
 	r.Client = x.Name
 	r.SentAt = x.S.Now()
+	if r.Extra["expect"] != "" {
+		if i := bytes.Index(r.Frame, []byte("\r\n\r\n")); i > 0 && i+4 < len(r.Frame) {
+			x.Conn.Send(r.Frame[:i+4])
+			x.heldBody, x.heldFor = r.Frame[i+4:], r
+			c := x.Conn
+			x.S.After(time.Second, "h1expect:giveup:"+x.Name, func() { x.sendHeld(c, r, "after waiting a second for 100 Continue") })
+			x.S.Logf("h1client %s send req#%d %s head only (%dB), expects 100 Continue", x.Name, r.Idx, r.Method, i+4)
+			return
+		}
+	}
 	x.Conn.Send(r.Frame)
 	x.S.Logf("h1client %s send req#%d %s %dB", x.Name, r.Idx, r.Method, len(r.Frame))
+}
+
+func (x *H1Client) sendHeld(c *sim.Conn, r *ReqRec, why string) {
+	if x.heldFor != r || x.heldBody == nil || c != x.Conn {
+		return
+	}
+	b := x.heldBody
+	x.heldBody, x.heldFor = nil, nil
+	if x.cur != r || c.PeerDone() {
+		return
+	}
+	r.SentAt = x.S.Now()
+	c.Send(b)
+	x.S.Logf("h1client %s sends the body of req#%d (%dB) %s", x.Name, r.Idx, len(b), why)
 }
 
 func (x *H1Client) OnData(c *sim.Conn, b []byte) {
@@ -340,6 +369,10 @@ func (x *H1Client) drain(eof bool) {
 			return
 		}
 		if m.Status/100 == 1 {
+			if m.Status == 100 && x.heldFor != nil {
+				x.Continues++
+				x.sendHeld(x.Conn, x.heldFor, "on 100 Continue")
+			}
 			continue
 		}
 		tok, _ := m.Get("X-Rtok")
